@@ -102,6 +102,8 @@ type Env struct {
 	top, mid, base, clean []int
 	lastBase              []int
 	OnRound               func() // called after every completed round
+	curStep               *int
+	faultsOff             bool
 	Persisted             int // States[Persisted] is what the lower level holds
 	Rounds                int // completed ok rounds
 	DataRounds            int // completed rounds that carried batches
